@@ -125,11 +125,11 @@ func (c *gctx) scalarType(label string) *ref.SNode {
 }
 
 // keyTypeNode creates and registers a string type usable as key shortcut and returns its name.
-func (c *gctx) keyTypeNode(label string) string {
+func (c *gctx) keyTypeNode(label string, kind int) string {
 	name := fmt.Sprintf("@k%d", c.keyType)
 	c.keyType++
 	n := &ref.SNode{Kind: ref.SLit, Lit: ref.KString}
-	switch c.draw(0, 2, label+"K") {
+	switch kind {
 	case 0:
 		n.Tok, n.Str = `"kab"`, "kab"
 		n.Rules = append(n.Rules, ref.SRule{Name: "regex", ValKind: ref.RVScalar, Tok: `"^k[a-c]{2,3}$"`})
@@ -267,9 +267,18 @@ func (c *gctx) objectNode(i int, self string, depth int, top bool, label string)
 		}
 	}
 	if !hasShortcut && c.draw(0, 3, label+"Shortcut") == 0 {
-		kn := c.keyTypeNode(label + "KT")
-		val := c.valueNode(i, self, 0, true, label+"SV")
-		n.Props = append(n.Props, ref.SProp{Key: kn, KeyTok: kn, Shortcut: true, Val: val})
+		// one or two shortcut entries whose key types accept disjoint key sets (three kinds:
+		// regex ^k[a-c]{2,3}$, length 5..6, enum kx|ky)
+		kinds := rapid.Permutation([]int{0, 1, 2}).Draw(c.t, label+"KTKinds")
+		cnt := 1 + c.draw(0, 1, label+"TwoShortcuts")
+		for k := 0; k < cnt; k++ {
+			kn := c.keyTypeNode(fmt.Sprint(label, "KT", k), kinds[k])
+			val := c.valueNode(i, self, 0, true, fmt.Sprint(label, "SV", k))
+			pos := c.draw(0, len(n.Props), fmt.Sprint(label, "SPos", k))
+			np := append([]ref.SProp{}, n.Props[:pos]...)
+			np = append(np, ref.SProp{Key: kn, KeyTok: kn, Shortcut: true, Val: val})
+			n.Props = append(np, n.Props[pos:]...)
+		}
 	}
 	return n
 }
